@@ -101,6 +101,40 @@ theorem keeps_cDec (i j : Nat) : Keeps i (cDec j) := by
   · simp only
     rw [List.getElem?_set_ne hij]; exact hq
 
+theorem keeps_cFinEarly (i j : Nat) : Keeps i (cFinEarly j) := by
+  intro k k' h
+  unfold cFinEarly at h
+  split at h <;> try contradiction
+  rename_i q' hq'
+  split at h <;> try contradiction
+  rename_i hst
+  simp only [Option.some.injEq] at h; subst h
+  refine ⟨rfl, id, ?_⟩
+  intro q hq hqs
+  by_cases hij : j = i
+  · subst hij
+    rw [hq'] at hq; cases hq
+    rw [hst] at hqs; contradiction
+  · simp only
+    rw [List.getElem?_set_ne hij]; exact hq
+
+theorem keeps_cLateWrite (i j : Nat) : Keeps i (cLateWrite j) := by
+  intro k k' h
+  unfold cLateWrite at h
+  split at h <;> try contradiction
+  rename_i q' hq'
+  split at h <;> try contradiction
+  rename_i hst
+  simp only [Option.some.injEq] at h; subst h
+  refine ⟨rfl, id, ?_⟩
+  intro q hq hqs
+  by_cases hij : j = i
+  · subst hij
+    rw [hq'] at hq; cases hq
+    rw [hst] at hqs; contradiction
+  · simp only
+    rw [List.getElem?_set_ne hij]; exact hq
+
 theorem keeps_cRecvRsp (i j : Nat) : Keeps i (cRecvRsp j) := by
   intro k k' h; unfold cRecvRsp at h; split at h <;> try contradiction
   split at h <;> try contradiction
@@ -241,7 +275,17 @@ theorem dropped_step {cfg : Cfg} {n qc : Nat} (hpool : cfg.pool = some (n, qc)) 
     have hp : poolOn cfg = true := by simp [poolOn, hpool]
     simp only [step, hp, if_true] at h
     exact dropped_updConn (keeps_cStartP i j) hd h
-  | fin c' j => exact dropped_updConn (keeps_cFin i j) hd h
+  | fin c' j =>
+    simp only [step] at h
+    split at h
+    · contradiction
+    · exact dropped_updConn (keeps_cFin i j) hd h
+  | finEarly c' j =>
+    simp only [step] at h
+    split at h
+    · exact dropped_updConn (keeps_cFinEarly i j) hd h
+    · contradiction
+  | lateWrite c' j => exact dropped_updConn (keeps_cLateWrite i j) hd h
   | write c' j => exact dropped_updConn (keeps_cWrite i j) hd h
   | skip c' j => exact dropped_updConn (keeps_cSkip i _ j) hd h
   | dec c' j => exact dropped_updConn (keeps_cDec i j) hd h
